@@ -619,13 +619,13 @@ def _strategy(maxdepth):
             if c["super"]:
                 kinds += ["sup", "sup"]
             if depth < maxdepth:
-                kinds += ["for", "ffor", "ffor", "if", "fil", "set"]
-                if c["blocks"] and not c["nomac"]:
+                kinds += ["for", "for", "ffor", "if", "fil", "set"]
+                if self.avail(c) and not c["nomac"]:
                     kinds += ["blk", "blk", "blk"]
                 if c["incs"]:
                     kinds += ["inc", "inc", "inc"]
                 if c["libs"]:
-                    kinds += ["imp"]
+                    kinds += ["imp", "imp"]
                 if not c["nomac"]:
                     kinds += ["mac"]
             k = draw(st.sampled_from(kinds))
@@ -645,11 +645,12 @@ def _strategy(maxdepth):
                 c2 = dict(c, loopd=c["loopd"] + 1)
                 return ["for", itk, cnt, filt, lu, els, rec, self.body(c2, depth + 1, 1, 2)]
             if k == "blk":
-                pool = [b for b in c["blocks"] if b in c["inherited"]] or c["blocks"]
-                name = draw(st.sampled_from(pool if draw(st.booleans()) else c["blocks"]))
+                avail = self.avail(c)
+                pool = [b for b in avail if b in c["inherited"]] or avail
+                name = draw(st.sampled_from(pool if draw(st.booleans()) else avail))
                 c["blocks"].remove(name)
                 scoped = draw(st.sampled_from([False, False, True]))
-                c2 = dict(c, super=name in c["inherited"], loopd=c["loopd"] if scoped else 0)
+                c2 = dict(c, super=name in c["inherited"], loopd=c["loopd"] if scoped else 0, minblk=BLOCKS.index(name))
                 return ["blk", name, scoped, self.body(c2, depth + 1)]
             if k == "inc":
                 return ["inc", draw(st.sampled_from(c["incs"])), draw(st.sampled_from([True, True, False]))]
@@ -668,7 +669,13 @@ def _strategy(maxdepth):
 
         def ctx(self, incs, libs, inherited, nomac=False):
             return dict(blocks=list(BLOCKS), inherited=set(inherited), incs=list(incs), libs=list(libs), super=False,
-                        loopd=0, nomac=nomac, mcount=[0])
+                        loopd=0, nomac=nomac, mcount=[0], minblk=-1)
+
+        @staticmethod
+        def avail(c):
+            # a block may only contain blocks of a higher index (in every template), so that overriding
+            # never makes a block contain itself through an ancestor's nesting
+            return [b for b in c["blocks"] if BLOCKS.index(b) > c["minblk"]]
 
         def child_body(self, c):
             # top level of an extending template: overriding blocks (output outside blocks is dropped)
@@ -680,7 +687,7 @@ def _strategy(maxdepth):
                 pool = [b for b in c["blocks"] if b in c["inherited"]] or c["blocks"]
                 name = self.draw(st.sampled_from(pool))
                 c["blocks"].remove(name)
-                c2 = dict(c, super=name in c["inherited"])
+                c2 = dict(c, super=name in c["inherited"], minblk=BLOCKS.index(name))
                 out.append(["blk", name, False, self.body(c2, 1)])
             return out
 
@@ -812,8 +819,8 @@ def run_shard(spec, ctx):
     return rec
 
 
-SETS_QUICK = 100
-SETS_THOROUGH = 600
+SETS_QUICK = 400
+SETS_THOROUGH = 4500
 
 
 def floors(total, tier):
